@@ -377,11 +377,11 @@ func (p *queueProcessor) enqueueIfSlotAvailable(req *Request) bool {
 		Int64("MaxSharedQueueSize", p.maxRedisQueueSize).
 		Msgf("Checking if slot available")
 
-	localSize := p.requestsWatcher.GetCount()
-	if localSize >= p.maxQueueSize {
+	// The size test and the reservation of the slot are one atomic step.
+	if !p.requestsWatcher.ReserveSlot(p.maxQueueSize) {
 		// If the local queue is full, we drop the request
 		p.logger.Debug().Str("requestID", req.GetID()).
-			Int64("LocalQueueCurrentSize", localSize).
+			Int64("LocalQueueCurrentSize", p.requestsWatcher.GetCount()).
 			Msg("Slot not available, dropping request")
 		return false
 	}
@@ -392,6 +392,7 @@ func (p *queueProcessor) enqueueIfSlotAvailable(req *Request) bool {
 		p.logger.Debug().Str("requestID", req.GetID()).
 			Int64("GlobalQueueCurrentSize", currentSize).
 			Msg("Slot not available on shared queue, dropping request")
+		p.requestsWatcher.ReleaseSlot()
 		return false
 	}
 
